@@ -161,6 +161,8 @@ def judge_c09(case, side, res):
     if res and side.get("status") == "ok":
         if res.get("oC09frame", "1") != "1":
             v["ok"] = False; v["oracle_why"] = "a JSX-free module did not come back unchanged"
+        elif res.get("oC09items", "1") != "1":
+            v["ok"] = False; v["oracle_why"] = "a JSX-free top-level statement of the input does not appear unchanged (and in order) in the output"
         elif res.get("oC09idem", "1") != "1":
             v["ok"] = False; v["oracle_why"] = "the second pass over the output changed it"
         elif (case.get("stream") == "types" and res.get("jsxfree_in") == "1" and res.get("same_in", "1") != "1"
@@ -514,6 +516,8 @@ def judge_c17(case, side, res):
                 v["known"] = "union_with_any"
             elif "empty_obj" in tags and pe["type"] != [None]:
                 v["known"] = "empty_object_in_union"
+            elif "inherited_index" in tags and pe["type"] != [None]:
+                v["known"] = "indexed_access_inherited_key"
             else:
                 v.pop("known", None)
                 return v
@@ -685,6 +689,15 @@ def judge_c10(case, side, res):
         v["relevant"] = False
         return v
     r = res.get("alt_site", "none")
+    if "output" in side:
+        # what the statement evaluates to also depends on its temporaries being declared: inside the
+        # module they must be bound exactly as when the statement stands alone (C06's analysis)
+        opts = side.get("options") or {}
+        errors, _ = scope_mod.analyse(side["output"], side.get("input"), side.get("unres"), [opts["pragma"]] if opts.get("pragma") else [])
+        if errors:
+            v["ok"] = False
+            v["oracle_why"] = "inside the module a generated name is not bound as it is when the statement stands alone: " + ", ".join("%s `%s`" % e for e in sorted(set(errors))[:4])
+            return v
     if r == "none":
         v["relevant"] = False
     elif r != "1":
